@@ -252,3 +252,57 @@ Proof.
   intros H. unfold render. rewrite render_go_escape_percent by (try assumption; lia).
   cbn [append_extra]. rewrite process_escape_clean_bs; [ reflexivity | exact H ].
 Qed.
+
+(* ---------- backslash runs before a directive (fix 475de81) ---------- *)
+Definition no_meta (t : bytes) : Prop := Forall (fun c => c <> "%" /\ c <> "\") t.
+
+Lemma has_fmt_go_plain t : no_meta t -> forall s, has_fmt_go false (t ++ s) = has_fmt_go false s.
+Proof.
+  induction 1 as [|c t (Hp & Hb) _ IH]; intros s; [ reflexivity | ].
+  cbn [app has_fmt_go].
+  assert (E1 : ceq c "%" = false) by (apply Ascii.eqb_neq; exact Hp).
+  assert (E2 : ceq c "\" = false) by (apply Ascii.eqb_neq; exact Hb).
+  rewrite E1, E2. apply IH.
+Qed.
+
+Lemma has_fmt_go_pairs k : forall b s, has_fmt_go b (bs_pairs k ++ s) = has_fmt_go b s.
+Proof.
+  induction k as [|k IH]; intros b s; [ reflexivity | ].
+  cbn [bs_pairs app has_fmt_go]. change (ceq "\" "%") with false. change (ceq "\" "\") with true. cbv iota.
+  rewrite negb_involutive. apply IH.
+Qed.
+
+(* an even run of backslashes leaves the directive active, an odd run hides it *)
+Theorem backslash_parity_l t k rest : no_meta t ->
+  has_fmt (t ++ bs_pairs k ++ "%" :: "d" :: rest) = true /\
+  has_fmt (t ++ bs_pairs k ++ "\" :: "%" :: "d" :: rest) = has_fmt rest.
+Proof.
+  intros Ht. unfold has_fmt. split.
+  - rewrite (has_fmt_go_plain t Ht), has_fmt_go_pairs. reflexivity.
+  - rewrite (has_fmt_go_plain t Ht), has_fmt_go_pairs. cbn [has_fmt_go]. change (ceq "\" "%") with false. change (ceq "\" "\") with true.
+    change (ceq "%" "%") with true. change (ceq "d" "%") with false. change (ceq "d" "\") with false. reflexivity.
+Qed.
+
+Lemma render_go_bs_pair fu r args :
+  render_go (S fu) ("\" :: "\" :: r) args = ocons "\" (ocons "\" (render_go fu r args)).
+Proof. reflexivity. Qed.
+
+(* \\%d : one backslash, then the directive is rendered *)
+Theorem render_escaped_backslash_directive m z w c a : int_conv_char c ->
+  render ("\" :: "\" :: directive m z w c) [a] =
+  Some ("\" :: pad_num m z w (fst (int_body c (farg_int a))) (snd (int_body c (farg_int a)))).
+Proof.
+  intros Hc. unfold render. cbn [List.length]. rewrite render_go_bs_pair.
+  generalize (List.length (directive m z w c)). intros n.
+  rewrite <- (app_nil_r (directive m z w c)).
+  rewrite render_go_directive by (apply int_conv_is_conv_char; exact Hc).
+  rewrite conv_int by exact Hc. rewrite render_go_nil.
+  pose proof (int_body_clean c (farg_int a)) as (C1 & C2 & NE).
+  remember (pad_num m z w (fst (int_body c (farg_int a))) (snd (int_body c (farg_int a)))) as out eqn:Eo.
+  assert (C : clean out) by (subst out; apply clean_pad_num; assumption).
+  assert (N : out <> []) by (subst out; apply pad_num_nonempty; exact NE).
+  assert (E : match out with [] => arg_to_string a | _ :: _ => out end = out) by (destruct out; congruence).
+  rewrite E. cbn [oapp ocons append_extra]. rewrite app_nil_r.
+  change (process_escape ("\" :: "\" :: out)) with ("\"%char :: process_escape out).
+  rewrite process_escape_clean by exact C. reflexivity.
+Qed.
